@@ -424,3 +424,30 @@ def anchored(names):
     """The subset of `names` ('file.py:qualname') that the tree defines."""
     have = defined_functions()
     return [n for n in names if n in have]
+
+
+def encode_twins(v, rnd, k=2, churn=0):
+    """Disturbance for encoder-side checks: encode values that are EQUAL to
+    `v` (1 / 1.0 / True / Decimal(1), Decimal('11.5') / Decimal('11.50'),
+    0.0 / -0.0, the other fold of a wall-clock time, the same instant in
+    another zone) through the same entry points, outcomes ignored; with
+    `churn` also push that many distinct scalars through the encoder so
+    that a bounded memo is evicted.  The value under test is encoded by the
+    caller afterwards and judged as usual."""
+    from pamqp import encode
+    from ..gen import values as gv
+    for _ in range(k):
+        t = gv.twin(v, rnd)
+        fn = encode.field_table if isinstance(t, dict) else \
+            encode.field_array if isinstance(t, list) else \
+            encode.encode_table_value
+        call(fn, t)
+        if not isinstance(t, (dict, list)) and rnd.random() < 0.5:
+            call(encode.field_table, {'k': t})
+    if churn:
+        _CHURN[0] += 1
+        for x in gv.churn_scalars(churn, _CHURN[0]):
+            call(encode.encode_table_value, x)
+
+
+_CHURN = [0]
